@@ -89,6 +89,36 @@ pub fn mutants(s: &Seed, level: Level) -> Vec<Mutant> {
         w[t] = (((n + 1) as u32) << 16) | opcode;
         out.push(Mutant { what: format!("version={:#x}&surplus+wc", v), bytes: model::words_to_bytes(&w) });
     }
+    // the same with the other header words: every registered generator tool id (and two unregistered ones) / the id bound
+    // 0, 1, the target's own word count, 2^32-1 / a non-zero schema word, each together with a surplus ZERO word, a
+    // surplus non-zero word, and a dropped last word at the target: what an instruction's extent is does not depend on the header
+    if s.id.ends_with(":min:1st") || s.id.ends_with(":full:3rd") {
+        let mut hdrs: Vec<(usize, u32, String)> = (0u32..=45).chain([0x7FFF, 0xFFFF]).map(|tool| (2usize, (tool << 16) | 1, format!("generator={:#x}", (tool << 16) | 1))).collect();
+        for b in [0u32, 1, n as u32, 0xFFFF_FFFF] {
+            hdrs.push((3, b, format!("bound={:#x}", b)));
+        }
+        hdrs.push((4, 1, "schema=1".into()));
+        for (idx, val, name) in hdrs {
+            for (vn, extra) in [("surplus0", Some(0u32)), ("surplus", Some(0x0000_0777)), ("short", None)] {
+                let mut w = s.words.clone();
+                w[idx] = val;
+                match extra {
+                    Some(x) => {
+                        w.insert(t + n, x);
+                        w[t] = (((n + 1) as u32) << 16) | opcode;
+                    }
+                    None => {
+                        if n < 2 {
+                            continue;
+                        }
+                        w.remove(t + n - 1);
+                        w[t] = (((n - 1) as u32) << 16) | opcode;
+                    }
+                }
+                out.push(Mutant { what: format!("{}&{}+wc", name, vn), bytes: model::words_to_bytes(&w) });
+            }
+        }
+    }
     // a string that is not terminated inside its instruction: every word of the target that contains a zero byte is
     // replaced by text, so that the next NUL lies in a LATER instruction
     {
